@@ -6,6 +6,7 @@
 //!   size    <out.ndjson>                      C10: sizes of compressed periodic / small inputs ("size" events)
 //!   sizeone <fmt> <p> <pk> <n> <out.ndjson>   C10: one periodic size event again (replay)
 //!   deccmp  <cases> <out> [--from k]          isolated: C11 spec->impl, decompress TLC's streams, compare with TLC's verdict
+//!   tokgen  <tokens.ndjson>                   C11 spec->impl: seeded random token sequences (encoded and expanded by TLC, Gen_LZ fam "rand")
 //!   fuzzgen <seeds.ndjson> <cases.ndjson>     C11 impl->spec: corruptions of valid streams + random bytes
 //!   declog  <cases> <out> [--from k]          isolated: decompress, one "dec" event per case
 use mila::{CompressionFormat, LZ10CompressionFormat, LZ13CompressionFormat};
@@ -62,11 +63,65 @@ fn periodic(pat: &[u8], n: usize) -> Vec<u8> {
     (0..n).map(|i| pat[i % pat.len()]).collect()
 }
 
-fn pattern(rng: &mut Rng, p: usize, kind: usize) -> Vec<u8> {
+/// Number of pattern families for periodic inputs (the "pattern contents" dimension of C10).
+const PATTERN_KINDS: usize = 5;
+
+/// First period of a periodic input.  None: the family needs a longer period.
+///   0 random bytes (incompressible first period)
+///   1 two-letter alphabet (matches everywhere inside the first period)
+///   2 noise with one block of 18..48 bytes occurring twice
+///   3 table of records that share a prefix of >= 18 bytes, the rest of each record is noise
+///   4 k >= 2 copies of a shorter block of >= 18 bytes, then a noise tail
+fn pattern(rng: &mut Rng, p: usize, kind: usize) -> Option<Vec<u8>> {
     match kind {
-        0 => rng.bytes(p),                                       // incompressible first period
-        _ => (0..p).map(|_| b'a' + rng.below(2) as u8).collect(), // low entropy: matches inside the first period
+        0 => Some(rng.bytes(p)),
+        1 => Some((0..p).map(|_| b'a' + rng.below(2) as u8).collect()),
+        2 => {
+            if p < 40 {
+                return None;
+            }
+            let l = rng.range(18, 48.min((p - 2) / 2));
+            let mut v = rng.bytes(p);
+            let block = rng.bytes(l);
+            let a = rng.range(0, p - 2 * l - 1);
+            let b = rng.range(a + l + 1, p - l);
+            v[a..a + l].copy_from_slice(&block);
+            v[b..b + l].copy_from_slice(&block);
+            Some(v)
+        }
+        3 => {
+            if p < 48 {
+                return None;
+            }
+            let r = rng.range(24, 80.min(p / 2));
+            let s = rng.range(18, r - 4);
+            let prefix = rng.bytes(s);
+            let mut v = rng.bytes(p);
+            for k in 0..(p / r) {
+                v[k * r..k * r + s].copy_from_slice(&prefix);
+            }
+            Some(v)
+        }
+        _ => {
+            if p < 40 {
+                return None;
+            }
+            let q = rng.range(18, 400.min((p - 1) / 2));
+            let k = rng.range(2, (p - 1) / q);
+            let block = rng.bytes(q);
+            let mut v = rng.bytes(p);
+            for j in 0..k {
+                v[j * q..(j + 1) * q].copy_from_slice(&block);
+            }
+            Some(v)
+        }
     }
+}
+
+/// A long total for period p: compression cost grows like n^2/p (the LZ13 header computation rescans to the end
+/// of the input for every displacement that is a multiple of the period), so n scales with sqrt(p).
+fn long_total(p: usize) -> usize {
+    (((p as f64).sqrt() * 16000.0) as usize).clamp(20_000, 1_000_000)
 }
 
 /// LZ-style synthetic data: random seed bytes, then copies of chosen length from chosen distances (overlapping
@@ -107,7 +162,7 @@ fn structured(fmt: &str, rng: &mut Rng, quick: bool) -> Vec<(String, Vec<u8>)> {
     let periods: &[usize] = &[2, 3, 17, 18, 19, 255, 256, 272, 273, 4094, 4095, 4096, 4097, 4098, 5000];
     for &p in periods {
         for kind in 0..2 {
-            let pat = pattern(rng, p, kind);
+            let pat = pattern(rng, p, kind).expect("kinds 0 and 1 exist for every period");
             v.push((format!("per{}", p), periodic(&pat, 2 * p + 37)));
             if !quick || p < 1000 {
                 v.push((format!("per{}", p), periodic(&pat, p + 4096 + 19)));
@@ -186,7 +241,7 @@ fn size_event(fmt: &str, input: &[u8], p: usize, pk: usize, list_input: bool) ->
 /// one periodic size event, regenerated from (seed, fmt, p, pk, n) - used to replay a recorded C10 violation
 fn cmd_sizeone(fmt: &str, p: usize, pk: usize, n: usize, out_path: &str) {
     let mut rng = Rng::new(seed_from_env() ^ ((p as u64) << 20) ^ ((pk as u64) << 40) ^ n as u64);
-    let pat = pattern(&mut rng, p, pk);
+    let pat = pattern(&mut rng, p, pk).unwrap_or_else(|| usage("sizeone: pattern kind needs a longer period"));
     let mut w = NdWriter::create(out_path);
     w.put(&size_event(fmt, &periodic(&pat, n), p, pk, false));
     w.finish();
@@ -203,15 +258,28 @@ fn cmd_size(out_path: &str) {
     } else {
         periods.extend(1..=4096);
     }
+    // periods that also get a long total (10^4 .. 10^6 bytes): the fixed list plus a seeded sample
+    let mut long_periods: Vec<usize> = vec![1, 2, 17, 40, 100, 257, 1000, 2048, 4090, 4096];
+    let mut prng = Rng::new(seed ^ 0x10A6);
+    for _ in 0..(if quick { 10 } else { 300 }) {
+        long_periods.push(prng.range(40, 4096));
+    }
     let mut jobs: Vec<(&'static str, usize, usize, usize)> = Vec::new();
     for &p in &periods {
         for fmt in ["lz10", "lz13"] {
             // long enough that a shortened match length or window shows up in the number of references
             let long = if fmt == "lz10" { p + 4096 + 19 } else { p + 4 * 4096 + 19 };
             for n in [2 * p + 37, long] {
-                for pk in 0..2 {
+                for pk in 0..PATTERN_KINDS {
                     jobs.push((fmt, p, pk, n));
                 }
+            }
+        }
+    }
+    for &p in &long_periods {
+        for fmt in ["lz10", "lz13"] {
+            for pk in 0..PATTERN_KINDS {
+                jobs.push((fmt, p, pk, long_total(p)));
             }
         }
     }
@@ -226,10 +294,10 @@ fn cmd_size(out_path: &str) {
                     jobs.iter()
                         .skip(t)
                         .step_by(nthreads)
-                        .map(|&(fmt, p, pk, n)| {
+                        .filter_map(|&(fmt, p, pk, n)| {
                             let mut rng = Rng::new(seed ^ ((p as u64) << 20) ^ ((pk as u64) << 40) ^ n as u64);
-                            let pat = pattern(&mut rng, p, pk);
-                            size_event(fmt, &periodic(&pat, n), p, pk, false)
+                            let pat = pattern(&mut rng, p, pk)?;
+                            Some(size_event(fmt, &periodic(&pat, n), p, pk, false))
                         })
                         .collect::<Vec<Value>>()
                 })
@@ -333,6 +401,64 @@ fn cmd_deccmp(cases_path: &str, out_path: &str, from: usize) {
     });
 }
 
+/// Random token sequences at the real parameters of a format.  Only the CHOICE of tokens is made here (kind,
+/// length log-uniform over the format's whole range, displacement anywhere in 1..min(produced, 4096)); encoding,
+/// well-formedness and the expected expansion are TLC's (Gen_LZ family "rand").
+fn log_uniform(rng: &mut Rng, lo: usize, hi: usize) -> usize {
+    let u = (rng.next() >> 11) as f64 / (1u64 << 53) as f64;
+    let v = (lo as f64) * ((hi as f64 + 1.0) / lo as f64).powf(u);
+    (v as usize).clamp(lo, hi)
+}
+
+fn cmd_tokgen(out_path: &str) {
+    let quick = tier_is_quick();
+    let mut rng = Rng::new(seed_from_env() ^ 0x70C);
+    let mut w = NdWriter::create(out_path);
+    let budget = 70_000usize; // total expansion per stream
+    for s in 0..(if quick { 80 } else { 600 }) {
+        let fmt = if s % 3 == 0 { "lz10" } else { "lz11" };
+        let max_len = if fmt == "lz10" { 18 } else { 65808 };
+        let mut ts: Vec<Value> = Vec::new();
+        let mut produced = 0usize;
+        // a prefix of literals: mostly short, sometimes long enough to fill the window
+        let first = if rng.chance(1, 6) { log_uniform(&mut rng, 100, 5000) } else { rng.range(1, 20) };
+        ts.push(json!({"k": "run", "b": rng.below(256), "len": first, "disp": 0}));
+        produced += first;
+        for _ in 0..rng.range(2, 12) {
+            match rng.below(10) {
+                0..=2 => {
+                    ts.push(json!({"k": "lit", "b": 97 + rng.below(2), "len": 1, "disp": 0}));
+                    produced += 1;
+                }
+                3 => {
+                    let n = rng.range(1, 40);
+                    ts.push(json!({"k": "run", "b": rng.below(256), "len": n, "disp": 0}));
+                    produced += n;
+                }
+                _ => {
+                    let room = budget.saturating_sub(produced);
+                    if room < 3 {
+                        break;
+                    }
+                    let len = log_uniform(&mut rng, 3, max_len.min(room));
+                    let far = produced.min(4096);
+                    let disp = match rng.below(6) {
+                        0 => 1,
+                        1 => far,
+                        2 => far.saturating_sub(1).max(1),
+                        3 => log_uniform(&mut rng, 1, far),
+                        _ => rng.range(1, far),
+                    };
+                    ts.push(json!({"k": "ref", "b": 0, "len": len, "disp": disp}));
+                    produced += len;
+                }
+            }
+        }
+        w.put(&json!({"fmt": fmt, "ts": ts}));
+    }
+    w.finish();
+}
+
 // ------------------------------------------------------------------------------------------------ C11 impl -> spec
 fn corrupt(rng: &mut Rng, s: &[u8]) -> Vec<u8> {
     let mut v = s.to_vec();
@@ -431,6 +557,7 @@ fn main() {
         Some("size") if a.len() == 2 => cmd_size(&a[1]),
         Some("sizeone") if a.len() == 6 => cmd_sizeone(&a[1], a[2].parse().unwrap(), a[3].parse().unwrap(), a[4].parse().unwrap(), &a[5]),
         Some("deccmp") if a.len() >= 3 => cmd_deccmp(&a[1], &a[2], from_arg(a, 3)),
+        Some("tokgen") if a.len() == 2 => cmd_tokgen(&a[1]),
         Some("fuzzgen") if a.len() == 3 => cmd_fuzzgen(&a[1], &a[2]),
         Some("declog") if a.len() >= 3 => cmd_declog(&a[1], &a[2], from_arg(a, 3)),
         _ => usage("mvh_lz inputs <lz10|lz13> <cases> | comp <cases> <out> [--from k] | size <out> | deccmp <cases> <out> [--from k] | fuzzgen <seeds> <cases> | declog <cases> <out> [--from k]"),
